@@ -310,6 +310,15 @@ Guards2(e) ==
          CG("rstorm_closed_exactly_once", {"C10", "C09"},
               /\ \A i \in DOMAIN e.closes : e.closes[i] = 1
               /\ Len(e.closes) = e.runs[1] + e.runs[2] + e.runs[3])}
+    ELSE IF e.ev = "sstorm" THEN
+        \* k goroutines, each in a fresh scope of its own, resolved the scoped A (which depends on the scoped B) at the
+        \* same instant - the same constructors ran in k scopes at once: every A was constructed with the B of ITS scope,
+        \* no two scopes share an A or a B, each constructor ran once per scope, everything closed once
+        {CG("sstorm_dependency_of_own_scope", {"C02", "C04", "C09"}, e.crossed = 0),
+         CG("sstorm_scopes_share_nothing", {"C02", "C09"}, e.shared = 0),
+         CG("sstorm_once_per_scope", {"C02", "C09"}, e.runs[1] = e.k /\ e.runs[2] = e.k),
+         CG("sstorm_no_failure", {"C02", "C09", "C15"}, e.errs = 0 /\ e.panics = 0 /\ e.closeerr = 0),
+         CG("sstorm_closed_exactly_once", {"C10", "C09"}, (\A i \in DOMAIN e.closes : e.closes[i] = 1) /\ Len(e.closes) = 2 * e.k)}
     ELSE IF e.ev \in {"hang", "fatal"} THEN {CG("no_hang_no_crash", AllProps, FALSE)}
     ELSE {}
 
